@@ -19,7 +19,15 @@ pub(crate) fn duration_to_instant(duration: Duration) -> Instant {
 }
 
 /// A helper to get the current time as a `Duration` since the epoch.
+#[cfg(not(excsn_fibre_verif))]
 #[inline]
 pub(crate) fn now_duration() -> Duration {
   instant_to_duration(Instant::now())
+}
+
+/// Verification seam H1: the virtual clock of `crate::verif`.
+#[cfg(excsn_fibre_verif)]
+#[inline]
+pub(crate) fn now_duration() -> Duration {
+  Duration::from_nanos(crate::verif::clock_nanos())
 }
